@@ -56,6 +56,13 @@ Resync(c, e, s2) ==
                        !.size  = IF e.size >= 0 THEN e.size ELSE s2.size]
   IN NormUnr(Repair(c, s3))
 
+(* size() on a line without a call of its own (clock step, pure observation).  The only calls *)
+(* since the previous line are the projection's side-effect-free lookups, which on tlru/utlru   *)
+(* may have discarded expired entries (an implementation is free to reap on any call).          *)
+ProjSize(c, s, e) ==
+  e.size >= 0 =>
+     IF c.kind \in TtlCaches THEN NLive(s) <= e.size /\ e.size <= s.size ELSE e.size = s.size
+
 (* Checks every call shares: the projection equals the expected state.     *)
 ValuesEq(e, s2) == \A x \in Probed(e) : ObsV(e)[x] = s2.store[x]
 LiveEq(e, s2)   == \A x \in Probed(e) : (ObsV(e)[x] # None) = (s2.store[x] # None)
@@ -133,7 +140,8 @@ TrEraseRange(c, t, s, e) ==
 TrFindRange(c, t, s, e) ==
   LET F == FoldFind(Strict, c, t, {[st |-> RangeStart(c, s), acc |-> <<>>]}, KsOf(e), e.p = 1, 1)
   IN \E x \in F : /\ RangeMatch(c, e, x,
-                        JJ({"C01", "C03", "C04", "C05", "C18"}, x.acc = RlOf(e)))
+                        JJ({"C01", "C03", "C04", "C05", "C18"} \cup (IF c.kind \in UtKinds THEN {"C17"} ELSE {}),
+                           x.acc = RlOf(e)))
                   /\ st' = Resync(c, e, x.st)
 
 TrClean(c, t, s, e) ==
@@ -168,7 +176,7 @@ TrClear(c, t, s, e) ==
 
 TrTick(c, t2, s, e) ==
   LET s2 == ElemTick(c, t2, s)
-  IN /\ JJ({"C02"}, e.size = s.size)
+  IN /\ JJ({"C02"}, ProjSize(c, s, e))
      /\ JJ({"C05", "C03"}, LiveEq(e, s2))
      /\ JJ({"C01"}, ValuesEq(e, s2))
      /\ JJ({"C11", "C14"}, CntEq(c, e, s2))
@@ -177,7 +185,7 @@ TrTick(c, t2, s, e) ==
 \* A pure observation.  For ut_map / ut_set the probes are lookups, i.e. a call that purges.
 TrObs(c, t, s, e) ==
   LET s2 == RangeStart(c, s) IN
-  /\ JJ({"C02", "C17"}, e.size >= 0 => e.size = s2.size)
+  /\ JJ({"C02", "C17"}, ProjSize(c, s2, e))
   /\ JJ({"C03", "C05"}, LiveEq(e, s2))
   /\ JJ({"C01"}, ValuesEq(e, s2))
   /\ JJ({"C11", "C14"}, CntEq(c, e, s2))
